@@ -262,6 +262,12 @@ def run_property(rep, pid, budget_s=None):
             rep.trust('%s: %s' % (t, ASSUMED.get(t, t)))
         for t in c.assumes:
             rep.trust(t)
+        for ck in r['meta'].get('callees', []):
+            # callees whose contract is assumed, not proved: their contract is part of the trusted base of this proof
+            cc = REGISTRY.get(ck)
+            if cc is not None and cc.kind == 'assumed':
+                for t in (cc.assumes or ['assumed contract of %s: ensures %s' % (cc.qualname, '; '.join(cc.ensures))]):
+                    rep.trust('assumed contract of %s - %s' % (cc.qualname, t))
     rep.pending_failed = getattr(rep, 'pending_failed', []) + [
         {'key': key, 'name': a['name'], 'status': a['status'], 'model': a['model'], 'reason': a['reason'],
          'hash': meta['hash'], 'baseline': base.get(noline(a['name']))} for key, a, meta in failed]
